@@ -6,7 +6,8 @@ from . import common
 PROFILES = [
     ('perm', .2, dict(p_incompat=.2, n_dv=(1, 3), p_dv_cond=0., n_steps=(2, 6))),
     ('cond', .45, dict(p_incompat=.3, n_dv=(1, 3), p_dv_cond=.8, p_dv_dup_label=.35, n_steps=(3, 9))),
-    ('linked', .25, dict(p_incompat=.2, n_dv=(2, 3), p_dv_cond=.6, p_dv_link=1., n_steps=(3, 8))),
+    ('linked', .17, dict(p_incompat=.2, n_dv=(2, 3), p_dv_cond=.6, p_dv_link=1., n_steps=(3, 8))),
+    ('linked2', .08, dict(p_incompat=.2, n_dv=(4, 5), p_dv_cond=.4, p_dv_link=1., p_dv_link2=1., n_steps=(3, 8))),
     ('conn', .1, dict(p_incompat=.1, n_dv=(1, 2), n_conn=(1, 1), n_steps=(2, 5), max_sel=2, max_opts=3)),
 ]
 HOSTILE_CONT = [lambda lo, hi: lo, lambda lo, hi: hi, lambda lo, hi: lo - 1e6, lambda lo, hi: hi + 1e6,
